@@ -213,21 +213,12 @@ def run(ctx):
         lp = e.loops()
         if len(lp) != 1:
             raise AnalysisError(f"{where}: coefficient store not inside exactly one loop")
-        b = ("bv", lp[0][1])
-        it = lp[0][2]
-        if it[0] == "call" and it[1] == "enumerate":
-            src, pos, be = it[2][0], T.idx(b, T.num(0)), T.idx(b, T.num(1))
-        else:
-            src, pos, be = it, None, b
-        ok_src = T.alpha(src) == T.alpha(own_list)
-        # versor list indexed by the enumerate position of the list it was built from == versor of `be`
+        # canonical form (sym.canon_loop): the loop over the junction's interfaces, however it is spelled (list built first,
+        # enumerate + index, zip with the versor list), is the loop over vertex.own_big_edges with B = frame.big_edges[id]
+        ro = rules.roles(lp[0])
+        ok_src = ro.base == T.attr(vertex, "own_big_edges") and ro.elem is not None and ro.kind in ("plain", "enumerate")
+        be = T.idx(T.attr(FRAME, "big_edges"), ro.elem) if ro.elem is not None else T.NONE
         val = e.value
-
-        def f_idx(t):
-            if t[0] == "idx" and t[1][0] == "map" and pos is not None and t[2] == pos and t[1][4] == T.TRUE and T.alpha(t[1][3]) == T.alpha(src):
-                return T.substitute(t[1][1], {t[1][2]: be})
-            return None
-        val = T.transform(val, f_idx)
         versor = T.call(f"{BE}.get_versor_from_vertex", (be, v_), (("fit_method", T.attr(SELF, "circle_fit_method")),))
         comp = val[2] if val[0] == "idx" and val[1] == versor and val[2][0] == "num" else None
         col = T.call("forsys.virtual_edges.eid_from_vertex", (BTU, T.call(f"{BE}.get_vertices_ids", (be,))))
@@ -262,11 +253,12 @@ def run(ctx):
     for gd, t, n in se.returns:
         lp = [x for x in gd if x[0] == "loop"]
         cs = [x for x in gd if x[0] not in ("loop", "while", "try", "except")]
-        if lp and t == ("bv", lp[-1][1]) and len(cs) == 1:
-            a, b = sorted([T.call("set", (T.idx(p0, t),)), T.call("set", (p1,))], key=repr)
+        ro = rules.roles(lp[-1]) if lp else None
+        if lp and ro.kind == "enumerate" and ro.base == p0 and t == ro.pos and len(cs) == 1:
+            a, b = sorted([T.call("set", (ro.elem,)), T.call("set", (p1,))], key=repr)
             want = T.ige(T.call("len", (T.call("list", (T.call("bitand", (a, b)),)),)), 2)
             want2 = T.ige(T.call("len", (T.call("bitand", (a, b)),)), 2)
-            ok = cs[0] in (want, want2) and lp[-1][2] in (T.call("range", (T.num(0), T.call("len", (p0,)))), T.call("range", (T.call("len", (p0,)),)))
+            ok = cs[0] in (want, want2)
     raises = [e for e in se.events if e.kind == "raise"]
     ctx.check(ok and bool(raises), "CONST", f"{ef.qualname} / CONST / column = first list sharing >= 2 ids, else BigEdgesBadlyCreated", ctx.where(ef),
               "threshold 2 shared vertex ids", "eid_from_vertex no longer returns the first position sharing at least two vertex ids (or no longer raises when none does)")
